@@ -2,6 +2,7 @@ import FordModel.Proto
 import FordModel.Reader
 import FordModel.Fixed
 import FordModel.FixedTree
+import FordModel.FixedProject
 import FordModel.Dispatch.C02
 namespace Ford
 open Proto Fixed
@@ -24,7 +25,12 @@ def parseVariant : Str → Variant
                                          (reader with include expansion over the given files;
                                           `<fixed>` = 1: every file goes through the converter)
     `c14.form <ext> <n> extension*n fixed-extension*`
-                                      -> `ok` `fixed` | `free` | `none`   (form selected for a file) -/
+                                      -> `ok` `fixed` | `free` | `none`   (form selected for a file)
+    `c14.cfg <ext> <preprocess> <limit-setting> <n1> extension*n1 <n2> fixed-extension*n2 fpp-extension*`
+                                      -> `ok` `none` | `ok` fixed lim pp inc-fixed inc-lim inc-pp
+                                         (constructor arguments of the reader of the file / of its INCLUDEd files)
+    `c14.readprj <var> <doc> <pre> <alt> <preAlt> <fixed> <lim> <pp> <nfiles> (<name> <n> line*n)*nfiles main-line*`
+                                      -> `ok` item* | `err` kind   (`readProjectFile`, identity preprocessor) -/
 def dispatchC14 : List Str → Option (List Str)
   | cmd :: args =>
     if cmd == "c14.conv".toList then
@@ -65,6 +71,34 @@ def dispatchC14 : List Str → Option (List Str)
         | some true => some ["ok".toList, "fixed".toList]
         | some false => some ["ok".toList, "free".toList]
         | none => some ["ok".toList, "none".toList]
+      | _ => some ["bad-request".toList]
+    else if cmd == "c14.cfg".toList then
+      match args with
+      | ext :: pre :: lim :: n1 :: rest =>
+        let exts := rest.take (natOf n1)
+        match rest.drop (natOf n1) with
+        | n2 :: rest2 =>
+          let s : ProjSettings := { extensions := exts, fixedExtensions := rest2.take (natOf n2),
+                                    fppExtensions := effectiveFpp (pre == ['1']) (rest2.drop (natOf n2)),
+                                    lengthLimit := lim == ['1'] }
+          match fileCfg s ext with
+          | none => some ["ok".toList, "none".toList]
+          | some c =>
+            let i := includeCfg c
+            some ["ok".toList, bstr c.fixed, bstr c.lim, bstr c.pp, bstr i.fixed, bstr i.lim, bstr i.pp]
+        | _ => some ["bad-request".toList]
+      | _ => some ["bad-request".toList]
+    else if cmd == "c14.readprj".toList then
+      match args with
+      | v :: d :: p :: a :: pa :: fx :: lim :: pp :: nf :: rest =>
+        match parseFiles (natOf nf) rest with
+        | none => some ["bad-request".toList]
+        | some (fs, main) =>
+          let m : Marks := { doc := d, pre := p, alt := a, preAlt := pa }
+          let c : ReaderCfg := { fixed := fx == ['1'], lim := lim == ['1'], pp := pp == ['1'] }
+          match readProjectFile Include.readerCfg (parseVariant v) c m id fs 8 main with
+          | .ok items => some ("ok".toList :: items)
+          | .error e => some ["err".toList, ierrName e]
       | _ => some ["bad-request".toList]
     else none
   | [] => none
